@@ -37,14 +37,31 @@ def base_f(t, y):
     return np.array([y[1], -y[0] - 0.05 * y[1] + 0.1 * np.cos(t)])
 
 
+AGAINST = [False]      # when set, the systems are built with the OPPOSITE span and every call names its target: integrate(t=...) against the span
+
+
 def build(method, direction, rhs, dense=True, events=None):
     t0, tf = (0.0, 1.0) if direction > 0 else (1.0, 0.0)
     kw = {}
     if getattr(method, "__name__", "").startswith(("RK45", "DOPRI", "Richardson")):
         kw = dict(rtol=1e-6, atol=1e-8)
-    ode = de.OdeSystem(rhs, y0=np.array([1.0, 0.0]), t=(t0, tf), dt=0.2, dense_output=dense, **kw)
+    if AGAINST[0]:
+        ode = de.OdeSystem(rhs, y0=np.array([1.0, 0.0]), t=(t0, t0 - (tf - t0)), dt=0.2, dense_output=dense, **kw)
+        TARGETS[id(ode)] = tf
+    else:
+        ode = de.OdeSystem(rhs, y0=np.array([1.0, 0.0]), t=(t0, tf), dt=0.2, dense_output=dense, **kw)
     ode.set_method(method)
     return ode
+
+
+TARGETS = {}
+
+
+def go(ode, **kw):
+    """`integrate()` to the end of the span, or, for a system built against its span, `integrate(t=target)`"""
+    if id(ode) in TARGETS:
+        return ode.integrate(TARGETS[id(ode)], **kw)
+    return ode.integrate(**kw)
 
 
 def snapshot(ode):
@@ -53,7 +70,7 @@ def snapshot(ode):
 
 
 def check_fault(ctx, mname, method, direction, site, k, ref, kind="raise", events=None):
-    inp = dict(kind="fault", method=mname, direction=direction, site=site, k=k, fault=kind)
+    inp = dict(kind="fault", method=mname, direction=direction, site=site, k=k, fault=kind, against_span=AGAINST[0])
     rhs = CountingRHS(base_f, fault_at=None, kind=kind)
     ode = build(method, direction, rhs)
     base_n = rhs.n      # evaluations made by the constructor are before position 0 of the run
@@ -79,7 +96,7 @@ def check_fault(ctx, mname, method, direction, site, k, ref, kind="raise", event
         return y[0] - 0.8      # crosses during the run (non-terminal)
     exc = None
     try:
-        ode.integrate(callback=[cb], events=[ev] if site == "event" else None)
+        go(ode, callback=[cb], events=[ev] if site == "event" else None)
     except de.exception_types.FailedIntegration as e:
         exc = ("FailedIntegration", type(e.__cause__).__name__ if e.__cause__ is not None else None)
     except KeyboardInterrupt:
@@ -117,9 +134,9 @@ def check_fault(ctx, mname, method, direction, site, k, ref, kind="raise", event
     rhs.fault_at = None
     try:
         if site == "event":
-            ode.integrate(events=[ev])
+            go(ode, events=[ev])
         else:
-            ode.integrate()
+            go(ode)
         res = snapshot(ode)
         if site == "event":
             got = sorted(float(e.t) for e in ode.events)
@@ -155,7 +172,7 @@ def check_fault(ctx, mname, method, direction, site, k, ref, kind="raise", event
         ode.reset()
         s0 = snapshot(ode)
         ok0 = len(s0["t"]) == 1 and s0["status"] == 0 and s0["nsol"] == 0 and s0["nev"] == 0 and ode.nfev == 0 and np.array_equal(s0["y"][0], ref["y"][0])
-        ode.integrate()
+        go(ode)
         s1 = snapshot(ode)
         ok1 = np.array_equal(s1["t"], ref["t"]) and np.array_equal(s1["y"], ref["y"])
         ctx.oracle("reset-pristine", bool(ok0 and ok1), inp, what="after reset the rerun differs from the fault-free run (bitwise)")
@@ -169,12 +186,12 @@ def reference(method, direction):
     ode = build(method, direction, rhs)
     n0 = rhs.n
     steps = [0]
-    ode.integrate(callback=[lambda o: steps.__setitem__(0, steps[0] + 1)])
+    go(ode, callback=[lambda o: steps.__setitem__(0, steps[0] + 1)])
     ref = snapshot(ode)
     ref["nfev_run"] = rhs.n - n0
     ref["steps"] = steps[0]
     ode_ev = build(method, direction, CountingRHS(base_f))
-    ode_ev.integrate(events=[lambda t, y: y[0] - 0.8])
+    go(ode_ev, events=[lambda t, y: y[0] - 0.8])
     ref["event_times"] = sorted(float(e.t) for e in ode_ev.events)
     # a fine reference for the dense-output comparison
     from scipy.integrate import solve_ivp
@@ -229,9 +246,51 @@ def event_loop_block(ctx):
             prev = rec
 
 
+def blowup_block(ctx):
+    """tolerances that cannot be met: y' = y^2 runs into its singularity at |t| = 1 with fixed-step implicit schemes; sooner or later the
+    stage equations have no solution.  The call must fail with the integration-failure error (or, if it gets through, every recorded step
+    must be a genuine step of the scheme): whatever is recorded is finite, paired, monotone, and satisfies the scheme's defining equation"""
+    def rhs(t, y):
+        return y ** 2
+    for mname, dt in [("BackwardEuler", 0.05), ("ImplicitMidpoint", 0.05), ("BackwardEuler", 0.2), ("ImplicitMidpoint", 0.3), ("CrankNicolson", 0.1)]:
+        for sign in (1.0, -1.0):
+            inp = dict(kind="tolerances-cannot-be-met", method=mname, direction=sign, dt=dt)
+            ode = de.OdeSystem(rhs, y0=np.array([1.0 * sign]), t=(0.0, 2.0 * sign), dt=dt, dense_output=True, rtol=1e-6, atol=1e-9)
+            ode.set_method(getattr(I, mname))
+            exc = None
+            try:
+                ode.integrate()
+            except de.exception_types.FailedIntegration as e:
+                exc = e
+            except Exception as e:
+                ctx.oracle("failure-is-reported-as-integration-failure", False, dict(inp, error=repr(e)[:200]), what="integrate raised %r instead of FailedIntegration" % (e,))
+                continue
+            t, y = np.array(ode.t), np.array(ode.y)
+            finite = bool(np.all(np.isfinite(t)) and np.all(np.isfinite(y)))
+            ctx.oracle("recorded-prefix-finite", finite and len(t) == len(y), dict(inp, tail=[float(v) for v in y.reshape(-1)[-3:]], raised=exc is not None),
+                       what="recorded states are not finite after a run into a singularity (raised: %r)" % (exc is not None,))
+            if finite and mname in ("BackwardEuler", "ImplicitMidpoint", "CrankNicolson"):
+                worst = 0.0
+                for i in range(len(t) - 1):
+                    h, a, b = t[i + 1] - t[i], y[i][0], y[i + 1][0]
+                    r = {"BackwardEuler": b - a - h * b ** 2, "ImplicitMidpoint": b - a - h * (0.5 * (a + b)) ** 2, "CrankNicolson": b - a - 0.5 * h * (a ** 2 + b ** 2)}[mname]
+                    worst = max(worst, abs(r) / max(1.0, abs(b)))
+                ctx.oracle("recorded-steps-are-steps-of-the-scheme", worst <= 1e-6, dict(inp, residual=worst, steps=len(t) - 1, raised=exc is not None),
+                           what="a recorded step misses the defining equation of %s by %.2e (relative)" % (mname, worst))
+            if exc is None:
+                ctx.oracle("status-consistent", ode.success and abs(float(t[-1]) - 2.0 * sign) <= 1e-9, dict(inp, status=ode.integration_status, end=float(t[-1])), what="no exception but status %r, end %r" % (ode.integration_status, float(t[-1])))
+                ctx.count("blowup:ran-through")
+            else:
+                ctx.oracle("status-consistent", (not ode.success) and "fail" in ode.integration_status.lower(), dict(inp, status=ode.integration_status), what="FailedIntegration raised but status %r" % (ode.integration_status,))
+                ctx.count("blowup:raised:" + type(exc.__cause__).__name__)
+            if ode.sol is not None:
+                ctx.oracle("dense-covers-exactly-the-recorded-steps", len(ode.sol) == len(t) - 1, dict(inp, pieces=len(ode.sol), steps=len(t) - 1), what="%d dense pieces for %d recorded steps" % (len(ode.sol), len(t) - 1))
+
+
 def run(ctx):
     rng = ctx.rng
     event_loop_block(ctx)
+    blowup_block(ctx)
     for mname, method in families():
         for direction in (1, -1):
             try:
@@ -266,6 +325,25 @@ def run(ctx):
             check_fault(ctx, mname, method, direction, "callback", min(2, ref["steps"] - 1), ref, kind="interrupt")
             ctx.count("family:" + mname)
             ctx.sample(dict(method=mname, direction=direction, rhs_evaluations=nf, steps=ref["steps"], fault_positions=ks[:8]), limit=4)
+    # the same fault sites for calls made AGAINST the system's own span (integrate(t=...) on the other side of t0): nothing in the
+    # fault handling may depend on the direction of the span instead of the direction of the call
+    AGAINST[0] = True
+    try:
+        for mname, method in families()[:2] if ctx.quick() else families()[:4]:
+            for direction in (1, -1):
+                try:
+                    ref = reference(method, direction)
+                except Exception as e:
+                    ctx.oracle("reference-run", False, dict(kind="fault", method=mname, direction=direction, against_span=True), what="fault-free run raised %r" % (e,))
+                    continue
+                for site, ks, kind in [("event", [1, 5, 12, 30] if ctx.quick() else list(range(0, 60, 4)), "raise"), ("event", [2, 11], "interrupt"),
+                                       ("rhs", [1, ref["nfev_run"] // 2, ref["nfev_run"] - 1], "raise"), ("callback", [0, ref["steps"] - 1], "raise")]:
+                    for k in ks:
+                        if check_fault(ctx, mname, method, direction, site, k, ref, kind=kind):
+                            ctx.count("site:%s:against-span" % site)
+    finally:
+        AGAINST[0] = False
+        TARGETS.clear()
     # a fault inside a RETRY attempt (after a rejected attempt of the same step), then resume: the resumed run's dense pieces
     # must have the right-hand side as end slopes (shared with C06)
     import p_c06
